@@ -16,6 +16,13 @@ HOOK_RE = re.compile(r"(func \(gb \*gcpBalancer\) newSubConn\(\) \{\n[ \t]*)(gb\
 # swaps the channel's connection
 BIND_HOOK_RE = re.compile(r"(func \(gb \*gcpBalancer\) bindSubConn(?:Ref)?\([^)]*\) \{\n[ \t]*)(gb\.mu\.Lock\(\))")
 
+# third schedule hook: in detectUnresponsive, between the test "did this call start after the last response?" and the
+# increment of the deadline-exceeded counter — only where the two are separate steps (`if scRef.deCallsInc() >= …` as a
+# statement of its own): operation `done2 … park=1` stops a deadline-exceeded completion there while another call's
+# response arrives. Where test and increment are one critical section the pattern does not occur and there is
+# nothing to stop.
+DETECT_HOOK_RE = re.compile(r"(\n[ \t]*)(if scRef\.deCallsInc\(\) >=)")
+
 OTHER_CLOCK = re.compile(r"\btime\.(Since|Until)\(")
 
 class RewriteError(Exception):
@@ -25,10 +32,11 @@ def rewrite_sources(kind, pkgdir, work):
     out = {}
     hooked = False
     bind_hooked = False
+    detect_hooked = False
     if kind == "nohook":
         # real clock, no schedule hook (race-detector stress): only tell the harness so
         gen = os.path.join(work, "zz_verif_hookgen_test.go")
-        open(gen, "w").write("//go:build verif\n\npackage grpcgcp\n\nconst verifHookInstalled = false\nconst verifBindHookInstalled = false\n")
+        open(gen, "w").write("//go:build verif\n\npackage grpcgcp\n\nconst verifHookInstalled = false\nconst verifBindHookInstalled = false\nconst verifDetectHookInstalled = false\n")
         return {os.path.join(pkgdir, "zz_verif_hookgen_test.go"): gen}
     if kind != "vclock":
         raise RewriteError("unknown rewrite " + kind)
@@ -49,6 +57,9 @@ def rewrite_sources(kind, pkgdir, work):
             hooked = hooked or n == 1
             new, n2 = BIND_HOOK_RE.subn(r"\1verifHookBind(); \2", new)
             bind_hooked = bind_hooked or n2 >= 1
+        if os.path.basename(path) == "gcp_picker.go":
+            new, n3 = DETECT_HOOK_RE.subn(r"\1verifHookDetect(); \2", new, count=1)
+            detect_hooked = detect_hooked or n3 == 1
         if new == src:
             continue
         dst = os.path.join(work, "rw_" + os.path.basename(path))
@@ -56,6 +67,6 @@ def rewrite_sources(kind, pkgdir, work):
         out[path] = dst
     # tell the harness whether the hook could be placed (a refactored newSubConn: no `pickhold` operations)
     gen = os.path.join(work, "zz_verif_hookgen_test.go")
-    open(gen, "w").write("//go:build verif\n\npackage grpcgcp\n\nconst verifHookInstalled = %s\nconst verifBindHookInstalled = %s\n" % ("true" if hooked else "false", "true" if bind_hooked else "false"))
+    open(gen, "w").write("//go:build verif\n\npackage grpcgcp\n\nconst verifHookInstalled = %s\nconst verifBindHookInstalled = %s\nconst verifDetectHookInstalled = %s\n" % ("true" if hooked else "false", "true" if bind_hooked else "false", "true" if detect_hooked else "false"))
     out[os.path.join(pkgdir, "zz_verif_hookgen_test.go")] = gen
     return out
